@@ -500,17 +500,32 @@ def preemptions(steps, upto=None):
     return n
 
 
-def enumerate_schedules(run_once, bound, cap, rng=None):
+COARSE_KINDS = {"acq", "rel", "start", "end", "blocked"}      # lock-section boundaries and thread start / end only
+
+
+def enumerate_schedules(run_once, bound, cap, rng=None, kinds=None, order="any"):
     """systematic stateless search: `run_once(prefix) -> steps` executes the scenario under Replay(prefix) and returns
     the branching steps it took.  Children of a run differ from it at one later step; runs with more than `bound`
-    pre-emptions are not generated.  Yields nothing; `run_once` judges each run itself.  Returns (#runs, exhausted)."""
-    work = [[]]
+    pre-emptions are not generated.  Yields nothing; `run_once` judges each run itself.  Returns (#runs, exhausted).
+    `kinds`: step kinds at which alternatives are generated (default BRANCH_KINDS; COARSE_KINDS = a thread is switched
+    only where it takes / releases a lock, starts or ends - the granularity of a model whose lock sections are atomic).
+    `order="bfs"`: schedules with fewer pre-emptions first (all schedules with p pre-emptions run before any with p+1, so a
+    cap that is not reached means `exhausted` up to the bound and a cap that is reached still covers the low bounds
+    completely); default: any order (random when `rng` is given)."""
+    kinds = BRANCH_KINDS if kinds is None else kinds
+    bfs = order == "bfs"
+    work = [[]]                     # order "any": one list; "bfs": one bucket per number of pre-emptions
+    buckets = {0: [[]]}
     runs = 0
     seen = set()
-    while work:
+    while (any(buckets.values()) if bfs else work):
         if runs >= cap:
             return runs, False
-        prefix = work.pop() if rng is None else work.pop(rng.randrange(len(work)))
+        if bfs:
+            b = buckets[min(c for c, w in buckets.items() if w)]
+            prefix = b.pop() if rng is None else b.pop(rng.randrange(len(b)))
+        else:
+            prefix = work.pop() if rng is None else work.pop(rng.randrange(len(work)))
         steps = run_once(prefix)
         runs += 1
         choices = [s[0] for s in steps]
@@ -519,7 +534,7 @@ def enumerate_schedules(run_once, bound, cap, rng=None):
         for i in range(len(prefix), len(steps)):
             chosen, enabled, cur, kind = steps[i]
             for alt in enabled:
-                if alt == chosen or kind not in BRANCH_KINDS:
+                if alt == chosen or kind not in kinds:
                     continue
                 cost = p + (1 if (cur is not None and cur in enabled and alt != cur) else 0)
                 if cost > bound:
@@ -527,7 +542,10 @@ def enumerate_schedules(run_once, bound, cap, rng=None):
                 child = tuple(choices[:i] + [alt])
                 if child not in seen:
                     seen.add(child)
-                    work.append(list(child))
+                    if bfs:
+                        buckets.setdefault(cost, []).append(list(child))
+                    else:
+                        work.append(list(child))
             if cur is not None and cur in enabled and chosen != cur:
                 p += 1
     return runs, True
